@@ -1,7 +1,7 @@
 #!/usr/bin/env python3
 # Regenerates the table of seeded changes in DESIGN.md (between the seedtable markers) from seeded/*/meta.json.
 import json,glob,re
-rows=[];missed=0
+rows=[];missed=0;open_=0
 for d in sorted(glob.glob('/verif/seeded/*/')):
     m=json.load(open(d+'meta.json'))
     name=d.rstrip('/').split('/')[-1]
@@ -10,13 +10,16 @@ for d in sorted(glob.glob('/verif/seeded/*/')):
     h=oc.get('history','') or ''
     was_missed=('MISSED' in h) or ('missed' in h.lower()[:70])
     cell='caught'
-    if was_missed:
+    if 'NOT CAUGHT' in h:
+        open_+=1
+        cell='**NOT CAUGHT** → '+h.split('NOT CAUGHT:',1)[1].strip()[:320]
+    elif was_missed:
         missed+=1
         mm=re.search(r'(?:MISSED|missed)[^:]*:\s*(.*)',h)
         cell='**missed** → '+((mm.group(1) if mm else h)[:300])
     rows.append(f"| {name.replace('_',' ')} | `{ob}` | {cell} |")
-table=f"{len(rows)} seeded changes, {missed} of them missed by the check as it stood when the seed arrived, all caught now.\n\n| seed | failing obligation | first run |\n|---|---|---|\n"+"\n".join(rows)+"\n"
+table=f"{len(rows)} seeded changes; {missed} of them were missed by the check as it stood when the seed arrived and are caught now; {open_} are still not caught (each names the limit it runs into, and the claim of its property says so).\n\n| seed | failing obligation | first run |\n|---|---|---|\n"+"\n".join(rows)+"\n"
 p='/verif/DESIGN.md'; s=open(p).read()
 a=s.index('<!-- seedtable:begin -->')+len('<!-- seedtable:begin -->\n'); b=s.index('<!-- seedtable:end -->')
 open(p,'w').write(s[:a]+table+s[b:])
-print(len(rows),'seeds,',missed,'missed at first')
+print(len(rows),'seeds,',missed,'missed at first,',open_,'not caught')
